@@ -301,6 +301,45 @@ func genC01(c *Ctx) {
 			}
 		}
 	}
+	// hashers with a history of their own (Write, Reset, SumHash, ComputeHash calls made before the hasher is handed to
+	// Sign / Verify, and between the two): a signature is a function of key, tag and message only
+	{
+		k := c.randScalar()
+		sk := skFromInt(k)
+		pk := sk.PublicKey()
+		tag := "hasher-history"
+		histories := []func(h hash.Hasher){
+			func(h hash.Hasher) { _, _ = h.Write([]byte("left over")) },
+			func(h hash.Hasher) { h.Reset(); _, _ = h.Write([]byte("after reset")) },
+			func(h hash.Hasher) { _, _ = h.Write([]byte("a")); h.Reset() },
+			func(h hash.Hasher) { _, _ = h.Write([]byte("a")); _ = h.SumHash() },
+			func(h hash.Hasher) { _, _ = h.Write([]byte("a")); _ = h.SumHash(); _, _ = h.Write([]byte("b")) },
+			func(h hash.Hasher) { _ = h.ComputeHash([]byte("other")); _, _ = h.Write(nil) },
+			func(h hash.Hasher) { _, _ = h.Write([]byte("a")); _, _ = h.Write(nil) },
+			func(h hash.Hasher) { h.Reset(); h.Reset(); _, _ = h.Write(make([]byte, 168)); _, _ = h.Write([]byte{}) },
+			func(h hash.Hasher) { _ = h.SumHash(); h.Reset(); _, _ = h.Write(make([]byte, 200)); _ = h.SumHash(); h.Reset(); _, _ = h.Write([]byte("x")) },
+		}
+		for hi, hist := range histories {
+			msg := c.bytes(1 + c.intn(60))
+			h := crypto.NewExpandMsgXOFKMAC128(tag)
+			hist(h)
+			sig, err := sk.Sign(msg, h)
+			if err != nil {
+				panic(err)
+			}
+			c.Case(fmt.Sprintf("hasher-history/sign-%d", hi), fmt.Sprintf("bls.signmsg 0x%s %s %s", k.Text(16), hx([]byte(tag)), hx(msg)), "ok "+hx(sig))
+			// the same hasher again, then a fresh one and one with another history: all verify the same signature
+			c.Case(fmt.Sprintf("hasher-history/verify-same-%d", hi), "expect true #", verifyAns(pk, sig, msg, h))
+			h2 := crypto.NewExpandMsgXOFKMAC128(tag)
+			histories[(hi+3)%len(histories)](h2)
+			c.Case(fmt.Sprintf("hasher-history/verify-other-%d", hi), "expect true #", verifyAns(pk, sig, msg, h2))
+			// and the signature of (left-over bytes || message) is not a signature of the message
+			for _, prefix := range []string{"left over", "after reset", "a", "x"} {
+				forged, _ := sk.Sign(append([]byte(prefix), msg...), crypto.NewExpandMsgXOFKMAC128(tag))
+				c.Case(fmt.Sprintf("hasher-history/prefixed-%d", hi), "expect false #", verifyAns(pk, forged, msg, h))
+			}
+		}
+	}
 	// fixed hashers: chosen 128-byte outputs including chunks >= p
 	ones := make([]byte, 128)
 	for i := range ones {
